@@ -114,7 +114,7 @@ def check_case(case):
                 raise
             res.add(viol('generator_exception', f'iter_matrices {type(e).__name__}: {e}',
                          sig=f'generator_exception:{exc_sig(e)}', data={'msg': str(e)[:300]}))
-        if len(res.violations) > 4:
+        if len(res.violations) > 40:
             break
     if not res.violations:
         if n_sum != sum(sizes):
